@@ -209,7 +209,7 @@ pub fn run(cfg: &RunCfg) -> Report {
     let mut rep = Report::new(
         "C10",
         "exploration",
-        "(a) stateful histories as C01 (so partially filled and replenished orders occur) with rebuilds of the level through its seven round-trip paths (from_snapshot, From<&Snapshot>, snapshot package, snapshot JSON, serde JSON, Display->FromStr, PriceLevelData->TryFrom) at random points and at the end: the rebuild must succeed with the same price, the same orders field for field as a set and the same aggregates; after every step of every history the listing shows each resting id once in non-decreasing timestamp order. (b) externally supplied snapshots / level data / level JSON / level text / snapshot JSON whose aggregate fields are perturbed (boundary values), through ten constructors (incl. a package sealed outside the library with a checksum over the perturbed figures): the built level's aggregates must equal the sums over its orders and PriceLevelSnapshotPackage::new must carry derived figures. Non-trivial = (a) a rebuild of a level holding a partially filled or replenished order, (b) an input whose aggregates disagree with its orders; distinct = hash of the case.",
+        "(a) stateful histories as C01 (so partially filled and replenished orders occur) with rebuilds of the level through its seven round-trip paths (from_snapshot, From<&Snapshot>, snapshot package, snapshot JSON, serde JSON, Display->FromStr, PriceLevelData->TryFrom) at random points and at the end: the rebuild must succeed with the same price, the same orders field for field as a set and the same aggregates; after every step of every history the listing shows each resting id once in non-decreasing timestamp order. (b) externally supplied snapshots / level data / level JSON / level text / snapshot JSON whose aggregate fields are perturbed (boundary values), through ten constructors (incl. a package sealed outside the library with a checksum over the perturbed figures): the built level's aggregates must equal the sums over its orders and PriceLevelSnapshotPackage::new must carry derived figures. Non-trivial = (a) a rebuild of a level holding a partially filled or replenished order, (b) an input whose aggregates disagree with its orders; distinct = hash of the case. Since round 6: externally written texts come with their fields rotated / reversed; in the histories every content-bearing read-only call is decoded again and compared with the level, and one history in seven makes one fixed read-only call after every operation.",
     );
     rep.assumptions = vec!["external inputs have distinct order ids and order.price == level price (DESIGN §8)".into()];
     let tier = cfg.tier;
